@@ -24,12 +24,15 @@ SharedForms == {"none", "variant", "wrap", "twice", "pos_arg", "pos_arg_bare", "
                 "text", "field", "variant_field", "dbg", "padded", "pos_dbg", "twice_padded", "alias_dbg", "pos_after_alias",
                 \* enum-level formats that are ONE bare placeholder (the transparent-call path) and do not mention `_variant`:
                 \* a constant expression argument, a field by name, a named constant argument
-                "bare_expr", "bare_field", "bare_alias_expr"}
+                "bare_expr", "bare_field", "bare_alias_expr",
+                \* a `_variant` placeholder with ONE specifier of each remaining kind: sign, `#`, precision
+                "signed", "alt", "prec"}
 Mentions(s) == s \in {"variant", "wrap", "twice", "pos_arg", "pos_arg_bare", "alias", "alias_bare",
-                      "variant_field", "dbg", "padded", "pos_dbg", "twice_padded", "alias_dbg", "pos_after_alias"}
+                      "variant_field", "dbg", "padded", "pos_dbg", "twice_padded", "alias_dbg", "pos_after_alias",
+                      "signed", "alt", "prec"}
 \* a `_variant` placeholder carrying a specifier or a non-Display trait - ANY of them ("twice_padded": the second of two;
 \* "alias_dbg": through an alias)
-BadVariantSpec(s) == s \in {"dbg", "padded", "pos_dbg", "twice_padded", "alias_dbg"}
+BadVariantSpec(s) == s \in {"dbg", "padded", "pos_dbg", "twice_padded", "alias_dbg", "signed", "alt", "prec"}
 \* the shared literal is exactly one bare Display placeholder denoting `_variant`
 SharedIsBareVariant(s) == s \in {"variant", "pos_arg_bare", "alias_bare"}
 \* fields the shared literal itself refers to by name
